@@ -433,6 +433,23 @@ func traceBack(v ssa.Value, visit func(ssa.Value) bool, seen map[ssa.Value]bool,
 		if b := freeVarBinding(x); b != nil {
 			return traceBack(b, visit, seen, depth+1)
 		}
+	case *ssa.Alloc:
+		// array backing a variadic/composite literal: follow the element stores
+		if refs := x.Referrers(); refs != nil {
+			for _, r := range *refs {
+				if ia, ok := r.(*ssa.IndexAddr); ok {
+					if ir := ia.Referrers(); ir != nil {
+						for _, u := range *ir {
+							if st, ok := u.(*ssa.Store); ok && st.Addr == ia {
+								if traceBack(st.Val, visit, seen, depth+1) {
+									return true
+								}
+							}
+						}
+					}
+				}
+			}
+		}
 	}
 	return false
 }
